@@ -625,6 +625,42 @@ func locAll(c *Ctx, a *flAgg) {
 	}
 	locFilesAll(c, a)
 	locSplitRunes(c, a)
+	locIsFile(c, a)
+}
+
+// locIsFile (LOC-search/isFile): "the file exists locally" follows symbolic
+// links: the probe uses os.Stat (or opens the file), not os.Lstat, whose
+// answer for a link is about the link itself - in a link-farm GOROOT or
+// GOPATH (bazel, nix, stow) every source file is a link, and no root would be
+// found although every frame's file exists.
+func locIsFile(c *Ctx, a *flAgg) {
+	fn := c.L.Func("stack", "", "isFile")
+	if fn == nil {
+		return
+	}
+	follows, lstat := false, false
+	for _, b := range fn.Blocks {
+		for _, in := range b.Instrs {
+			if call, ok := in.(*ssa.Call); ok {
+				if cal := call.Call.StaticCallee(); cal != nil && calleePkg(cal) == "os" {
+					switch cal.Name() {
+					case "Stat", "Open", "ReadFile":
+						follows = true
+					case "Lstat", "Readlink":
+						lstat = true
+					}
+				}
+			}
+		}
+	}
+	switch {
+	case lstat:
+		a.bad("LOC-search", "isFile/follows-links", "the existence probe uses os.Lstat: a source file that is a symbolic link is reported as absent, so roots of link-farm trees are never detected although the files exist locally", fn.Pos())
+	case follows:
+		a.ok("LOC-search", "isFile/follows-links", "the existence probe follows symbolic links (os.Stat)", fn.Pos())
+	default:
+		a.und("LOC-search", "isFile/follows-links", "no os.Stat/Open call found in isFile", fn.Pos())
+	}
 }
 
 // locFilesAll (LOC-all/getFiles): the files the roots are searched from are
